@@ -235,6 +235,7 @@ func TestVerifC18(t *testing.T) {
 	}
 	c18CliPartial(v, dir, st)
 	c18CliRun(v, dir, st)
+	c18CliRunJSONConcurrent(v, dir)
 	v.Close("cli: `twins generate` / `twins run` invocations per (settings, views, shuffle, --scenarios, input); non-trivial = at least 2 options and 2 views")
 }
 
@@ -497,6 +498,75 @@ func c18CliRun(v *verifOut, dir string, st *verifStream) {
 			fp, what = "cli.run:log-all-output-differs-from-input", "`twins run --log-all` must write every executed scenario, in order"
 		}
 		v.Oracle(strings.Join(gotKeys, ";") == strings.Join(wantKeys, ";"), fp, fmt.Sprintf("%s: %d written, %d expected", what, len(gotKeys), len(wantKeys)), meta)
+	}
+}
+
+// `twins run --input file --concurrency N --log-all`: the workers share the JSON source; every scenario
+// of the file is executed and logged exactly once
+func c18CliRunJSONConcurrent(v *verifOut, dir string) {
+	for ci, c := range [][4]uint8{{4, 0, 2, 1}, {4, 0, 1, 2}, {3, 0, 2, 2}} {
+		settings := twins.Settings{NumNodes: c[0], NumTwins: c[1], Partitions: c[2], Views: c[3], Ticks: 3}
+		g := twins.NewGenerator(c18CliNop{}, settings)
+		var input []twins.Scenario
+		for {
+			s, err := g.NextScenario()
+			if err != nil {
+				break
+			}
+			input = append(input, s)
+		}
+		src := filepath.Join(dir, fmt.Sprintf("crun-in-%d.json", ci))
+		f, err := os.Create(src)
+		if err != nil {
+			v.Note("cannot create run input: " + err.Error())
+			return
+		}
+		wr, _ := twins.ToJSON(settings, f)
+		for _, s := range input {
+			_ = wr.WriteScenario(s)
+		}
+		_ = wr.Close()
+		_ = f.Close()
+		for _, w := range []uint{3, 8} {
+			meta := map[string]any{"mode": "run --input --log-all", "concurrency": w, "input_scenarios": len(input),
+				"num_nodes": c[0], "num_twins": c[1], "partitions": c[2], "views": c[3]}
+			dest := filepath.Join(dir, fmt.Sprintf("crun-out-%d-%d.json", ci, w))
+			numScenarios, numScenariosPerFile = 0, 0
+			twinsDest, twinsSrc = dest, src
+			twinsConsensus, logAll, concurrency = "chainedhotstuff", true, w
+			msg := c18CliQuiet(twinsRun)
+			numScenarios, logAll, twinsSrc, concurrency = 0, false, "", 1
+			v.Count("cli_run_json_concurrent")
+			v.Seen(fmt.Sprintf("cli crun %d %d", ci, w), true, meta)
+			if msg != "" {
+				meta["panic"] = msg
+				v.Oracle(false, "cli.run:panic", "`twins run --input --concurrency` panics", meta)
+				continue
+			}
+			out, _, ok := c18CliReadAll([]string{dest})
+			v.Oracle(ok, "cli.run:unreadable-output", "the written JSON cannot be read back", meta)
+			want, have := map[string]int{}, map[string]int{}
+			for _, s := range input {
+				want[c18CliScenKey(s)]++
+			}
+			for _, s := range out {
+				have[c18CliScenKey(s)]++
+			}
+			twice, missing := 0, 0
+			for k, x := range have {
+				if x > want[k] {
+					twice += x - want[k]
+				}
+			}
+			for k, x := range want {
+				if have[k] < x {
+					missing += x - have[k]
+				}
+			}
+			meta["written"], meta["executed_twice"], meta["missing"] = len(out), twice, missing
+			v.Oracle(twice == 0 && missing == 0 && len(out) == len(input), "cli.run:concurrent-json-run-differs-from-input",
+				fmt.Sprintf("`twins run --input` with %d workers: %d scenarios in the file, %d executed and logged, %d twice, %d missing", w, len(input), len(out), twice, missing), meta)
+		}
 	}
 }
 
